@@ -44,7 +44,7 @@ func c08Chain(seed int64, steps int) [][]string {
 		for _, l := range cur {
 			switch x := rng.Intn(20); {
 			case x < 3: // removed
-			case x == 3 && !strings.HasPrefix(l, "%"): // duplicated line => two equal values under one key
+			case x == 3 && !strings.HasPrefix(l, "%") && s%3 != 2: // duplicated line => two equal values under one key (not in a deletion-only step: its diff must hold '-' lines only)
 				next = append(next, l, l)
 			default:
 				next = append(next, l)
